@@ -51,6 +51,10 @@ structure WF (g : Graph) : Prop where
   /-- container typing -/
   typing : ∀ k cn info c, containerInfo (okind g k) cn = some info → g.child? k cn = some c →
     ∀ l ∈ g.links c, EntryOk g info l
+  /-- the root group carries no entity kind -/
+  root_kind : kindOf g 0 = ""
+  /-- and no node poses as the file -/
+  kind_not_file : ∀ k, kindOf g k ≠ "file"
 
 /-! ## small facts -/
 
@@ -119,7 +123,7 @@ theorem WF.transfer {g g' : Graph} (h : WF g)
   have hcont : ∀ c, IsCont g' c → IsCont g c := by
     rintro c ⟨k, cn, info, h1, h2⟩
     exact ⟨k, cn, info, by rwa [hok] at h1, hch h2⟩
-  refine ⟨by rw [hkeys]; exact h.keys_nodup, ?_, by rw [hkeys]; exact h.root, ?_, ?_, ?_, ?_, ?_, ?_, ?_, ?_⟩
+  refine ⟨by rw [hkeys]; exact h.keys_nodup, ?_, by rw [hkeys]; exact h.root, ?_, ?_, ?_, ?_, ?_, ?_, ?_, ?_, ?_, ?_⟩
   · intro k hk; rw [hnk]; exact h.keys_lt k (hkeys ▸ hk)
   · intro k l hl; rw [hkeys]; exact h.target_exists k l ((hlinks k).subset hl)
   · intro k; exact ((hlinks k).map _).nodup (h.names_nodup k)
@@ -135,6 +139,8 @@ theorem WF.transfer {g g' : Graph} (h : WF g)
     have := h.typing k cn info c (by rwa [hok] at h1) (hch h2) l ((hlinks c).subset hl)
     unfold EntryOk at this ⊢
     rw [hko, heid, hname]; exact this
+  · rw [hko]; exact h.root_kind
+  · intro k; rw [hko]; exact h.kind_not_file k
 
 /-- removing links (`del group[name]`) -/
 theorem WF.delLink {g : Graph} (h : WF g) (p : Nat) (n : String) : WF (g.delLink p n) :=
@@ -167,7 +173,7 @@ theorem WF.newNode {g : Graph} (h : WF g) (kd : NKind) : WF (g.newNode kd).1 := 
   have hcont : ∀ c, IsCont (g.newNode kd).1 c → IsCont g c := by
     rintro c ⟨k, cn, info, h1, h2⟩
     exact ⟨k, cn, info, by rwa [hok] at h1, by rwa [child?_newNode] at h2⟩
-  refine ⟨?_, ?_, ?_, ?_, ?_, ?_, ?_, ?_, ?_, ?_, ?_⟩
+  refine ⟨?_, ?_, ?_, ?_, ?_, ?_, ?_, ?_, ?_, ?_, ?_, ?_, ?_⟩
   · rw [keys_newNode]
     exact List.nodup_append.mpr ⟨h.keys_nodup, by simp, by
       intro a ha b hb
@@ -197,6 +203,8 @@ theorem WF.newNode {g : Graph} (h : WF g) (kd : NKind) : WF (g.newNode kd).1 := 
     have := h.typing k cn info c (by rwa [hok] at h1) (by rwa [child?_newNode] at h2) l hl
     unfold EntryOk at this ⊢
     rw [hko, heid, getAttr_newNode]; exact this
+  · rw [hko]; exact h.root_kind
+  · intro k; rw [hko]; exact h.kind_not_file k
 
 /-! ## orphans: nodes without links in or out (a node just made, before it is linked) -/
 
@@ -225,7 +233,8 @@ theorem Orphan.not_cont {g : Graph} {k : Nat} (h : Orphan g k) : ¬ IsCont g k :
 
 /-- any attribute may be written on an orphan; an `entity_id` must be a handed-out, unused id -/
 theorem WF.setAttr_orphan {g : Graph} (h : WF g) {k : Nat} (ho : Orphan g k) (a : String) (v : Option String)
-    (hidv : a = "entity_id" → ∃ n, v = some (idStr n) ∧ n < g.nextId ∧ ∀ k', g.entityId k' ≠ some (idStr n)) :
+    (hidv : a = "entity_id" → ∃ n, v = some (idStr n) ∧ n < g.nextId ∧ ∀ k', g.entityId k' ≠ some (idStr n))
+    (hkf : a = "~kind" → v ≠ some "file") :
     WF (g.setAttr k a v) := by
   have hattr : ∀ k' a', k' ≠ k → (g.setAttr k a v).getAttr k' a' = g.getAttr k' a' :=
     fun k' a' hk => getAttr_setAttr_ne g a v hk a'
@@ -252,7 +261,7 @@ theorem WF.setAttr_orphan {g : Graph} (h : WF g) {k : Nat} (ho : Orphan g k) (a 
     have hk' : k' ≠ k := by
       intro e; subst e; rw [hnochild] at h2; cases h2
     exact ⟨by rwa [hok k' hk'] at h1, h2⟩
-  refine ⟨by rw [keys_setAttr]; exact h.keys_nodup, ?_, by rw [keys_setAttr]; exact h.root, ?_, ?_, ?_, ?_, ?_, ?_, ?_, ?_⟩
+  refine ⟨by rw [keys_setAttr]; exact h.keys_nodup, ?_, by rw [keys_setAttr]; exact h.root, ?_, ?_, ?_, ?_, ?_, ?_, ?_, ?_, ?_, ?_⟩
   · intro k' hk'; rw [keys_setAttr] at hk'; exact h.keys_lt k' hk'
   · intro k' l hl; rw [links_setAttr] at hl; rw [keys_setAttr]; exact h.target_exists k' l hl
   · intro k'; rw [links_setAttr]; exact h.names_nodup k'
@@ -307,6 +316,24 @@ theorem WF.setAttr_orphan {g : Graph} (h : WF g) {k : Nat} (ho : Orphan g k) (a 
     have := h.typing k' cn info c h1' h2' l hl
     unfold EntryOk at this ⊢
     rw [hko l.2 hlk, heid l.2 hlk, hattr l.2 _ hlk]; exact this
+  · rw [hko 0 (Ne.symm ho.1)]; exact h.root_kind
+  · intro k'
+    by_cases hk : k' = k
+    · subst hk
+      by_cases ha : a = "~kind"
+      · subst ha
+        rw [kindOf_eq, getAttr_setAttr]
+        simp only [and_self, ↓reduceIte]
+        split
+        · intro e
+          apply hkf rfl
+          cases v with
+          | none => simp at e
+          | some s => simp at e; rw [e]
+        · decide
+      · rw [kindOf_eq, getAttr_setAttr_attr_ne g k' k' v (Ne.symm ha), ← kindOf_eq]
+        exact h.kind_not_file k'
+    · rw [hko k' hk]; exact h.kind_not_file k'
 
 /-! ## adding a link -/
 
@@ -340,7 +367,7 @@ theorem WF.addLink_plain {g : Graph} (h : WF g) {p t : Nat} {n : String}
         exact Or.inl ⟨h1, h2⟩
     · rw [child?_addLink_ne g n t hk] at h2
       exact Or.inl ⟨h1, h2⟩
-  refine ⟨by rw [keys_addLink]; exact h.keys_nodup, ?_, by rw [keys_addLink]; exact h.root, ?_, ?_, ?_, ?_, ?_, ?_, ?_, ?_⟩
+  refine ⟨by rw [keys_addLink]; exact h.keys_nodup, ?_, by rw [keys_addLink]; exact h.root, ?_, ?_, ?_, ?_, ?_, ?_, ?_, ?_, ?_, ?_⟩
   · intro k hk; rw [keys_addLink] at hk; exact h.keys_lt k hk
   · intro k l hl
     rw [keys_addLink]
@@ -390,6 +417,8 @@ theorem WF.addLink_plain {g : Graph} (h : WF g) {p t : Nat} {n : String}
       rw [hko, heid, getAttr_addLink]; exact this
     · rw [e3, links_addLink_ne g n t hcp, ho.2.1] at hl
       cases hl
+  · rw [hko]; exact h.root_kind
+  · intro k; rw [hko]; exact h.kind_not_file k
 
 /-- a new entry of a container: the target is well-typed for it -/
 theorem WF.addLink_entry {g : Graph} (h : WF g) {k c t : Nat} {cn n : String} {info : CInfo}
@@ -418,7 +447,7 @@ theorem WF.addLink_entry {g : Graph} (h : WF g) {k c t : Nat} {cn n : String} {i
       simp [containerInfo_empty] at h1
     rw [child?_addLink_ne g n t hk'] at h2
     exact ⟨h1, h2⟩
-  refine ⟨by rw [keys_addLink]; exact h.keys_nodup, ?_, by rw [keys_addLink]; exact h.root, ?_, ?_, ?_, ?_, ?_, ?_, ?_, ?_⟩
+  refine ⟨by rw [keys_addLink]; exact h.keys_nodup, ?_, by rw [keys_addLink]; exact h.root, ?_, ?_, ?_, ?_, ?_, ?_, ?_, ?_, ?_, ?_⟩
   · intro k hk; rw [keys_addLink] at hk; exact h.keys_lt k hk
   · intro k l hl
     rw [keys_addLink]
@@ -470,5 +499,7 @@ theorem WF.addLink_entry {g : Graph} (h : WF g) {k c t : Nat} {cn n : String} {i
         rw [hl2]; exact hok
     unfold EntryOk at hentry ⊢
     rw [hko, heid, getAttr_addLink]; exact hentry
+  · rw [hko]; exact h.root_kind
+  · intro k; rw [hko]; exact h.kind_not_file k
 
 end Nix.Store.Lemmas
